@@ -48,6 +48,7 @@ class Stacker(Transformer):
         self.coords_in = {}
         self.coords_out = {}
         self.data_type = None
+        self.vars_in = {}
 
     def get_serialization_attrs(self) -> dict:
         return dict(
@@ -57,6 +58,7 @@ class Stacker(Transformer):
             coords_in=self.coords_in,
             coords_out=self.coords_out,
             data_type=self.data_type,
+            vars_in=self.vars_in,
         )
 
     def _validate_data_type(self, X: Data):
@@ -144,6 +146,19 @@ class Stacker(Transformer):
             raise ValueError(
                 "Data to be transformed has different coordinates than the data used to fit."
             )
+
+    def _match_variables(self, X: Data) -> Data:
+        """A Dataset is a mapping of named variables: match them with the fitted ones by name and restore
+        the fitted order of the variables and of their dimensions, which stacking follows."""
+        if isinstance(X, xr.Dataset) and self.vars_in:
+            if set(X.data_vars) != set(self.vars_in):
+                raise ValueError(
+                    "Data to be transformed has different variables than the data used to fit."
+                )
+            X = X[list(self.vars_in)].map(
+                lambda var: var.transpose(*self.vars_in[var.name]), keep_attrs=True
+            )
+        return X
 
     def _reorder_dims(self, X: DataVarBound) -> DataVarBound:
         """Reorder dimensions to original order; catch ('mode') dimensions via ellipsis"""
@@ -325,6 +340,12 @@ class Stacker(Transformer):
         # Set dimensions and coordinates
         self.dims_in = tuple(X.dims)
         self.coords_in = {dim: X.coords[dim] for dim in X.dims}
+        # Variables of a Dataset and the order of their dimensions
+        self.vars_in = (
+            {name: tuple(X[name].dims) for name in X.data_vars}
+            if isinstance(X, xr.Dataset)
+            else {}
+        )
 
         return self
 
@@ -354,6 +375,9 @@ class Stacker(Transformer):
 
         # Check if data to be transformed has the same feature coordinates as the data used to fit the stacker
         self._validate_transform_feature_coords(X)
+
+        # Match the variables of a Dataset with the fitted ones
+        X = self._match_variables(X)
 
         # Stack data
         sample_dims = self.dims_mapping[self.sample_name]
